@@ -94,8 +94,19 @@ func symRR(tag string, labels, llen, rdlen int) (ResourceRecord, refName) {
 	return rr, n
 }
 
+// sameName: equal names; the root name has two spellings ("" when built, "." when decoded)
+func sameName(a, b string) bool {
+	if a == "." {
+		a = ""
+	}
+	if b == "." {
+		b = ""
+	}
+	return vStrEq(a, b)
+}
+
 func rrSame(a *ResourceRecord, b *ResourceRecord, id string) {
-	vCheck(vStrEq(a.Name, b.Name), id+"/name")
+	vCheck(sameName(a.Name, b.Name), id+"/name")
 	vCheck(a.Type == b.Type && a.Class == b.Class, id+"/type-class")
 	vCheck(a.TTL == b.TTL, id+"/ttl")
 	vCheck(a.RDLength == b.RDLength, id+"/rdlength")
@@ -133,6 +144,9 @@ func H_C09_roundtrip() {
 		m.Additional = append(m.Additional, rr)
 		names[2] = append(names[2], n)
 	}
+	// the header counts hold arbitrary earlier values (a message that was encoded before and then edited, or a literal):
+	// Encode describes the sections as they are now
+	m.QDCount, m.ANCount, m.NSCount, m.ARCount = vU16("prev.qd"), vU16("prev.an"), vU16("prev.ns"), vU16("prev.ar")
 	raw, err := m.Encode()
 	vCheck(err == nil, "roundtrip/encode-ok")
 	d, err := DecodeMessage(raw)
@@ -147,7 +161,7 @@ func H_C09_roundtrip() {
 	vCheck(len(d.Authority) == ns, "roundtrip/authority-len")
 	vCheck(len(d.Additional) == nr, "roundtrip/additional-len")
 	for i := 0; i < nq && i < len(d.Questions); i++ {
-		vCheck(vStrEq(d.Questions[i].Name, m.Questions[i].Name), "roundtrip/question/name")
+		vCheck(sameName(d.Questions[i].Name, m.Questions[i].Name), "roundtrip/question/name")
 		vCheck(d.Questions[i].Type == m.Questions[i].Type && d.Questions[i].Class == m.Questions[i].Class, "roundtrip/question/type-class")
 	}
 	for i := 0; i < na && i < len(d.Answers); i++ {
